@@ -4,7 +4,7 @@
 (* CASES_FILE: array of [txs: [[tx, vars]], cfg, proteome, observed]          *)
 (*   Complete = Sound on the tiers that use this module (linear transcripts,  *)
 (*   small variants); grey zones are kept out by the generators.              *)
-EXTENDS Peptides, TLC, Json, IOUtils
+EXTENDS Peptides, Rmats, TLC, Json, IOUtils
 
 Cases == JsonDeserialize(IOEnv.CASES_FILE)
 ToSet(s) == {s[i] : i \in 1..Len(s)}
@@ -32,10 +32,22 @@ MissingExplained(q) == \E p \in Orfs : SensitiveFragment(C.cfg, p, q)
 RefsOk == \A k \in 1..Len(C.txs) : \A j \in 1..Len(C.txs[k].vars) :
              RefMatches(C.txs[k].tx.seq, C.txs[k].vars[j])
 
+(* alternative-splicing records: the replace-[start,end)-by-alt form the harness derived from the   *)
+(* record (callVariant's internal anchoring) must denote exactly what Rmats.tla says the record     *)
+(* means on this transcript, and the structure given must spell the transcript                      *)
+AsOk == \A k \in 1..Len(C.txs) : \A j \in 1..Len(C.txs[k].as) :
+          LET a == C.txs[k].as[j]
+              st == C.txs[k].struct
+              t == [strand |-> st.tx.strand, exons |-> st.tx.exons]
+              v == C.txs[k].vars[a.idx]
+          IN /\ TxSeq(st.chrom, t) = C.txs[k].tx.seq
+             /\ Apply(C.txs[k].tx.seq, {[start |-> v.start, end |-> v.end, ref |-> v.ref, alt |-> v.alt, id |-> v.id]})
+                  = Denote(st.chrom, st.gene, t, a)
+
 Verdict ==
   LET cpl == Complete  snd == Sound  obs == Observed
       missing == cpl \ obs  extra == obs \ snd IN
-  IF ~RefsOk THEN PrintT(<<"V", i, "badcase">>)
+  IF ~RefsOk \/ ~AsOk THEN PrintT(<<"V", i, "badcase">>)
   ELSE IF missing = {} /\ extra = {} THEN PrintT(<<"V", i, "ok", Cardinality(cpl)>>)
   ELSE LET ctx == (\A q \in missing : MissingExplained(q)) /\ (\A q \in extra : ExtraExplained(q)) IN
        PrintT(<<"V", i, IF ctx THEN "context" ELSE "diff", "missing", missing, "extra", extra>>)
